@@ -168,4 +168,18 @@ func init() {
 			"the block-boundary invariants (oracle account == sum of open tips, tips escrow >= sum of credits, dispute account >= escrow) as inductive invariants over all handlers; Query.Amount bookkeeping in Tip; WithdrawTip; dispute account flows",
 		},
 	})
+	reg(&PropDef{
+		ID:    "C01",
+		Title: "Block execution is deterministic across runs and nodes",
+		Funcs: fcNP("x/oracle/keeper.Keeper.WeightedMode", "x/bridge/keeper.Keeper.PowerDiff", "x/oracle/keeper.Keeper.AllocateRewards"),
+		Sweeps: []string{"map_ranges", "unstable_sorts", "forbidden_sources", "goroutines"},
+		Assumptions: []string{
+			"cosmos-sdk, collections (key-ordered iteration), iavl and protobuf marshalling are deterministic; only layer's own code is examined",
+			"registered EVM addresses are unique among validators (needed for the total order of the bridge validator set sort)",
+			"code reached only at start-up, from the CLI, the price daemon or vote-extension construction is outside block execution (sites listed with that reason)",
+		},
+		NotDecided: []string{
+			"bit-for-bit equality of stores and events across nodes (needs determinism of the SDK stack)",
+		},
+	})
 }
